@@ -1,4 +1,6 @@
 import Dbus.Model.Bus.Match
+import Dbus.Model.Bus.Core
+import Dbus.Proofs.MatchGrammar
 import Dbus.Props.C16
 /-
   C07 — broadcasts reach exactly the connections whose match rules match.
@@ -241,5 +243,205 @@ theorem unicast_needs_eavesdrop (r : MatchRule) (c : MatchCtx) (d : Bytes)
   cases hr : r.dest with
   | none => simp [he, hd]
   | some x => simp [hd, he]
+
+/-! ### AddMatch accepts exactly the rule strings of the specified grammar and quoting
+
+  `Spec/MatchGrammar.lean` *generates* rule texts together with their meaning (items, pieces of a
+  value, apostrophes, backslashes); the tokenizer *scans*. The two agree on every text. -/
+
+open Dbus.Spec.MatchGrammar in
+/-- **The tokenizer accepts exactly the grammar, with the tokenizer's bound in it**: `tokenize_rule`
+    succeeds on a text and yields the pairs `kvs` iff the text is a rule text with these pairs in
+    which at most 16 items are read (whatever follows the comma after a sixteenth item is not
+    looked at — `RuleTextN.cut`). Every text, every quoting form. -/
+theorem tokenize_iff_bounded_grammar (s : Bytes) (kvs : List (Bytes × Bytes)) :
+    tokenize s = some kvs ↔ RuleTextN 16 s kvs := by
+  unfold tokenize
+  constructor
+  · intro h
+    obtain ⟨k, hk, hr⟩ := Proofs.MatchGrammar.ruleTextN_of_tokenizeAux 16 _ _ _ h
+    simp only [List.nil_append] at hk
+    subst hk
+    exact hr
+  · intro h
+    simpa [MAX_RULE_TOKENS] using Proofs.MatchGrammar.tokenizeAux_of_ruleTextN h []
+
+open Dbus.Spec.MatchGrammar in
+/-- every text of the grammar with at most sixteen items is accepted and read as it means -/
+theorem tokenize_complete (s : Bytes) (kvs : List (Bytes × Bytes)) (h : RuleText s kvs)
+    (hn : kvs.length ≤ 16) : tokenize s = some kvs :=
+  (tokenize_iff_bounded_grammar s kvs).2 (Proofs.MatchGrammar.ruleTextN_of_ruleText h 16 hn)
+
+open Dbus.Spec.MatchGrammar in
+/-- whatever the tokenizer accepts with fewer than sixteen items is a text of the grammar, and
+    the pairs are its meaning; with sixteen, the text up to the sixteenth item is -/
+theorem tokenize_sound (s : Bytes) (kvs : List (Bytes × Bytes)) (h : tokenize s = some kvs) :
+    kvs.length ≤ 16 ∧ (kvs.length < 16 → RuleText s kvs) :=
+  ⟨Proofs.MatchGrammar.ruleTextN_length ((tokenize_iff_bounded_grammar s kvs).1 h),
+   Proofs.MatchGrammar.ruleText_of_ruleTextN ((tokenize_iff_bounded_grammar s kvs).1 h)⟩
+
+open Dbus.Spec.MatchGrammar in
+/-- **AddMatch's verdict**: a text of at most 1024 bytes is accepted iff it is a rule text (≤ 16
+    items read) every one of whose items is acceptable to the per-key checks, taken in order
+    (known key, valid value for the key, no key twice, argument index ≤ 63) -/
+theorem parse_accepts_iff (s : Bytes) (hl : s.length ≤ 1024) :
+    (∃ r, parseRule s = .ok r) ↔
+      ∃ kvs r, RuleTextN 16 s kvs ∧
+        kvs.foldlM (fun r (kv : Bytes × Bytes) => applyToken r kv.1 kv.2) ({} : MatchRule) = some r := by
+  unfold parseRule
+  rw [if_neg (by omega)]
+  constructor
+  · rintro ⟨r, h⟩
+    cases ht : tokenize s with
+    | none => rw [ht] at h; cases h
+    | some kvs =>
+      rw [ht] at h
+      simp only at h
+      cases hf : kvs.foldlM (fun r (kv : Bytes × Bytes) => applyToken r kv.1 kv.2) ({} : MatchRule) with
+      | none => rw [hf] at h; cases h
+      | some r' => exact ⟨kvs, r', (tokenize_iff_bounded_grammar s kvs).1 ht, hf⟩
+  · rintro ⟨kvs, r, hg, hf⟩
+    rw [(tokenize_iff_bounded_grammar s kvs).2 hg]
+    simp only
+    rw [hf]
+    exact ⟨r, rfl⟩
+
+open Dbus.Spec.MatchGrammar in
+/-- non-vacuity: `k='a,b', m=\'` is a rule text; the first value reads `a,b`, the second `'` -/
+example : RuleText ([0x6b, 0x3d, 0x27, 0x61, 0x2c, 0x62, 0x27, 0x2c, 0x20, 0x6d, 0x3d, 0x5c, 0x27] : Bytes)
+    [([0x6b], [0x61, 0x2c, 0x62]), ([0x6d], [0x27])] := by
+  have h1 : Item.WF ⟨[], [0x6b], [], [.quoted [0x61, 0x2c, 0x62]]⟩ := by
+    refine ⟨by simp, by simp, ?_, by simp, ?_⟩
+    · intro c hc
+      simp only [List.mem_cons, List.not_mem_nil, or_false] at hc
+      subst hc; exact ⟨by decide, by unfold White; decide⟩
+    · intro g hg
+      simp only [List.mem_cons, List.not_mem_nil, or_false] at hg
+      subst hg
+      intro c hc
+      simp only [List.mem_cons, List.not_mem_nil, or_false] at hc
+      rcases hc with rfl | rfl | rfl <;> decide
+  have h2 : Item.WF ⟨[0x20], [0x6d], [], [.escApos]⟩ := by
+    refine ⟨?_, by simp, ?_, by simp, ?_⟩
+    · intro c hc
+      simp only [List.mem_cons, List.not_mem_nil, or_false] at hc
+      subst hc; exact Or.inl rfl
+    · intro c hc
+      simp only [List.mem_cons, List.not_mem_nil, or_false] at hc
+      subst hc; exact ⟨by decide, by unfold White; decide⟩
+    · intro g hg
+      simp only [List.mem_cons, List.not_mem_nil, or_false] at hg
+      subst hg; trivial
+  exact RuleText.more _ h1 _ _ (RuleText.last _ false h2)
+
+/-- …and the tokenizer reads it so -/
+example : tokenize ([0x6b, 0x3d, 0x27, 0x61, 0x2c, 0x62, 0x27, 0x2c, 0x20, 0x6d, 0x3d, 0x5c, 0x27] : Bytes)
+    = some [([0x6b], [0x61, 0x2c, 0x62]), ([0x6d], [0x27])] := by decide +kernel
+
+/-- the bound is real (and the reason the quantifier says "up to the per-rule key limits"): of
+    seventeen items the seventeenth is not read — here (`a=,b=,…,p=,=junk'`) it is not even a
+    well-formed item -/
+example : (tokenize ([0x61, 0x3d, 0x2c, 0x62, 0x3d, 0x2c, 0x63, 0x3d, 0x2c, 0x64, 0x3d, 0x2c, 0x65, 0x3d, 0x2c, 0x66, 0x3d, 0x2c, 0x67, 0x3d, 0x2c, 0x68, 0x3d, 0x2c, 0x69, 0x3d, 0x2c, 0x6a, 0x3d, 0x2c, 0x6b, 0x3d, 0x2c, 0x6c, 0x3d, 0x2c, 0x6d, 0x3d, 0x2c, 0x6e, 0x3d, 0x2c, 0x6f, 0x3d, 0x2c, 0x70, 0x3d, 0x2c, 0x3d, 0x6a, 0x75, 0x6e, 0x6b, 0x27] : Bytes)).map List.length = some 16 := by
+  decide +kernel
+
+/-! ### RemoveMatch removes one rule equal to its argument, or fails -/
+
+theorem findIdx_split {α} (p : α → Bool) : ∀ (l : List α),
+    (∀ i, l.findIdx? p = some i → ∃ a x b, l = a ++ x :: b ∧ p x = true ∧ (∀ y ∈ a, p y = false) ∧
+        l.eraseIdx i = a ++ b) ∧
+    (l.findIdx? p = none → ∀ y ∈ l, p y = false)
+  | [] => by simp
+  | x :: l => by
+    obtain ⟨ih1, ih2⟩ := findIdx_split p l
+    rw [List.findIdx?_cons]
+    by_cases hx : p x = true
+    · simp only [hx, if_true]
+      refine ⟨?_, by simp⟩
+      intro i hi
+      simp only [Option.some.injEq] at hi
+      subst hi
+      exact ⟨[], x, l, rfl, hx, by simp, rfl⟩
+    · have hx' : p x = false := by simpa using hx
+      simp only [hx', Bool.false_eq_true, if_false]
+      refine ⟨?_, ?_⟩
+      · intro i hi
+        cases hf : l.findIdx? p with
+        | none => rw [hf] at hi; simp at hi
+        | some j =>
+          rw [hf] at hi
+          simp only [Option.map_some, Option.some.injEq] at hi
+          subst hi
+          obtain ⟨a, y, b, hl, hy, ha, he⟩ := ih1 j hf
+          refine ⟨x :: a, y, b, by simp [hl], hy, ?_, by simp [he]⟩
+          intro z hz
+          rcases List.mem_cons.1 hz with rfl | hz
+          · exact hx'
+          · exact ha z hz
+      · intro hn
+        have hn' : l.findIdx? p = none := by
+          cases hf : l.findIdx? p with
+          | none => rfl
+          | some j => rw [hf] at hn; simp at hn
+        intro y hy
+        rcases List.mem_cons.1 hy with rfl | hy
+        · exact hx'
+        · exact ih2 hn' y hy
+
+/-- **RemoveMatch succeeds**: exactly one rule goes — one that equals the argument, the most
+    recently added such — and every other rule stays, in order -/
+theorem remove_removes_one (rs rs' : List MatchRule) (r : MatchRule) (h : removeRule rs r = some rs') :
+    ∃ pre x post, rs = pre ++ x :: post ∧ ruleEqual x r = true ∧
+      (∀ y ∈ post, ruleEqual y r = false) ∧ rs' = pre ++ post := by
+  unfold removeRule at h
+  cases hf : rs.reverse.findIdx? (fun x => ruleEqual x r) with
+  | none => rw [hf] at h; cases h
+  | some i =>
+    rw [hf] at h
+    simp only [Option.some.injEq] at h
+    obtain ⟨a, x, b, hl, hx, ha, he⟩ := (findIdx_split _ rs.reverse).1 i hf
+    refine ⟨b.reverse, x, a.reverse, ?_, hx, ?_, ?_⟩
+    · have := congrArg List.reverse hl
+      simpa using this
+    · intro y hy; exact ha y (by simpa using hy)
+    · rw [← h, he]; simp
+
+/-- **RemoveMatch fails** (MatchRuleNotFound, nothing changes) exactly when the connection holds
+    no rule equal to the argument -/
+theorem remove_fails_iff (rs : List MatchRule) (r : MatchRule) :
+    removeRule rs r = none ↔ ∀ y ∈ rs, ruleEqual y r = false := by
+  unfold removeRule
+  cases hf : rs.reverse.findIdx? (fun x => ruleEqual x r) with
+  | none =>
+    simp only [true_iff]
+    intro y hy
+    exact (findIdx_split _ rs.reverse).2 hf y (by simpa using hy)
+  | some i =>
+    simp only [false_iff, reduceCtorEq]
+    obtain ⟨a, x, b, hl, hx, _, _⟩ := (findIdx_split _ rs.reverse).1 i hf
+    intro hall
+    have hm : x ∈ rs := by
+      have : x ∈ rs.reverse := by rw [hl]; simp
+      simpa using this
+    rw [hall x hm] at hx
+    cases hx
+
+/-- a rule just added is found by RemoveMatch of an equal rule (`ruleEqual` is reflexive on it) -/
+theorem remove_after_add (rs : List MatchRule) (r : MatchRule) (hr : ruleEqual r r = true) :
+    removeRule (rs ++ [r]) r = some rs := by
+  cases h : removeRule (rs ++ [r]) r with
+  | none =>
+    have := (remove_fails_iff _ _).1 h r (by simp)
+    rw [hr] at this; cases this
+  | some rs' =>
+    obtain ⟨pre, x, post, hs, hx, hpost, hrs⟩ := remove_removes_one _ _ _ h
+    rcases List.eq_nil_or_concat post with rfl | ⟨init, z, rfl⟩
+    · have hs' : rs ++ [r] = pre ++ [x] := by simpa using hs
+      have := List.append_inj' hs' rfl
+      rw [hrs, this.1]; simp
+    · have hs' : rs ++ [r] = (pre ++ x :: init) ++ [z] := by simpa using hs
+      have hz := (List.append_inj' hs' rfl).2
+      simp only [List.cons.injEq, and_true] at hz
+      have := hpost z (by simp)
+      rw [← hz, hr] at this; cases this
 
 end Dbus.Props.C07
